@@ -80,9 +80,9 @@ partial def loopIO (hin hout : IO.FS.Stream) : IO Unit := do
   match f with
   | ["SF", strict, blob] => hout.putStrLn (frameView (← loadBlob blob) (strict == "1"))
   | "PW" :: complete :: toks =>
-    hout.putStrLn (if Model.PipeW.validTrace (toks.filterMap parseW) (complete == "1") then "valid" else "INVALID")
+    hout.putStrLn (if Model.PipeW.validTraceStrict (toks.filterMap parseW) (complete == "1") then "valid" else "INVALID")
   | "PR" :: complete :: toks =>
-    hout.putStrLn (if Model.PipeR.validTrace (toks.filterMap parseR) (complete == "1") then "valid" else "INVALID")
+    hout.putStrLn (if Model.PipeR.validTraceStrict (toks.filterMap parseR) (complete == "1") then "valid" else "INVALID")
   | ["SFC", strict, blob] => hout.putStrLn (frameViewC (← loadBlob blob) (strict == "1"))
   | ["SL", blob] => hout.putStrLn (legacyView (← loadBlob blob) false)
   | ["SLS", blob] => hout.putStrLn (legacyView (← loadBlob blob) true)
